@@ -1,6 +1,7 @@
 """C02 division: exact quotient/remainder with documented rounding."""
 import random
 from runner import Case
+from sweeputil import sweep_case
 from rpc import hx, I, split_reply
 import gen, models
 from gen import B, M
@@ -118,6 +119,12 @@ def sizes(th, tier):
 UIS = [1, 2, 3, 5, 7, 10, 255, 256, (1 << 32) - 1, 1 << 32, (1 << 32) + 1, (1 << 63) - 1, 1 << 63, (1 << 63) + 1, M - 1, M]
 
 def specs(rng, tier, wid, nw, env):
+    # in-driver kernel sweeps against the limb reference: divrem_1/mod_1/divexact_by3c family and the euclidean/hensel single-limb kernels
+    k_ = 0
+    for grp, top in (('div1', 40 if tier == 'quick' else 300), ('kern2', 32 if tier == 'quick' else 300)):
+        for lo in range(1, top + 1, 4):
+            k_ += 1
+            if k_ % nw == wid: yield ('sweep', grp, lo, min(lo + 3, top), rng.getrandbits(40))
     S = sizes(env.th, tier)
     S.sort(key=lambda s: -s[0])
     for i, (nn, dn, c) in enumerate(S):
@@ -149,6 +156,7 @@ def specs(rng, tier, wid, nw, env):
 
 def build(spec, env):
     kind = spec[0]; r = random.Random(spec[-1])
+    if kind == 'sweep': return sweep_case(spec[1], spec[2], spec[3], spec[4], 'C02')
     if kind == 'mpn':
         _, nn, dn, ctor, _s = spec
         n, d = make_nd(r, nn, dn, ctor)
